@@ -24,6 +24,12 @@
 (*     Mint -> Import -> ImportFT -> Connect(claim) -> Connect(filetrans). *)
 (* Cryptography is symbolic: Kdf(secret) is a term; two keys are equal iff *)
 (* derived from the same secret text with the same salt/info.              *)
+(* Using the session must not change it: every resumed connection calls    *)
+(* RenewLease on the entries of both ends (handleSessionResumption /       *)
+(* resumeSession), which moves an entry's expiry to "now + lease" when its *)
+(* lease is not 0.  Claim sessions carry the FIXED expiry embedded in the  *)
+(* claim id, so both ends register them with lease 0; SameSession is       *)
+(* required in every state, including after the connections.               *)
 (***************************************************************************)
 EXTENDS Integers, Sequences, FiniteSets, TLC
 
@@ -182,7 +188,8 @@ Now == 1000000       \* the virtual time of minting
 Minted == "secret-minted"
 Other  == "secret-other"   \* the minted secret with one character changed
 NoPolicy == [enc |-> "absent", integ |-> "absent", ciphers |-> << >>, cmds |-> << >>, expires |-> "never", ver |-> "none"]
-NoEntry == [sid |-> << >>, key |-> << >>, policy |-> NoPolicy, expiry |-> "never", user |-> "none"]
+NoEntry == [sid |-> << >>, key |-> << >>, policy |-> NoPolicy, expiry |-> "never", lease |-> 0, user |-> "none"]
+Later == Now + 7     \* the virtual time of the connections
 
 Init ==
   /\ cfg \in Configs
@@ -202,7 +209,10 @@ Mint ==
      IN /\ claim' = t
         /\ public' = PublicText(t)
         /\ eA' = [sid |-> SessionIdText(cfg), key |-> Kdf(<< Minted >>, "minter"), policy |-> q,
-                  expiry |-> q.expires, user |-> "submit-side"]
+                  expiry |-> q.expires,
+                  \* a claim session's expiry is fixed by the claim id: no lease
+                  lease |-> IF "MinterLeaseRenews" \in Bug THEN cfg.life ELSE 0,
+                  user |-> "submit-side"]
   /\ phase' = "minted"
   /\ UNCHANGED <<cfg, rel, eB, fA, fB, results>>
 
@@ -216,7 +226,7 @@ Import ==
          q  == ImportInfo(pc.info)
      IN eB' = IF pc.sid = << >> \/ pc.key = << >> THEN NoEntry
               ELSE [sid |-> pc.sid, key |-> Kdf(pc.key, "importer"), policy |-> q,
-                    expiry |-> q.expires, user |-> "execute-side"]
+                    expiry |-> q.expires, lease |-> 0, user |-> "execute-side"]
   /\ phase' = "imported"
   /\ UNCHANGED <<cfg, rel, claim, public, eA, fA, fB, results>>
 
@@ -228,10 +238,10 @@ ImportFT ==
   /\ LET pa == ParseClaim(claim)
          pb == ParseClaim(Held)
      IN /\ fA' = [sid |-> <<"filetrans.">> \o pa.sid, key |-> Kdf(pa.key, "minter"), policy |-> FtPolicy,
-                  expiry |-> "never", user |-> "submit-side"]
+                  expiry |-> "never", lease |-> 0, user |-> "submit-side"]
         /\ fB' = IF pb.sid = << >> THEN NoEntry
                  ELSE [sid |-> <<"filetrans.">> \o pb.sid, key |-> Kdf(pb.key, "importer"), policy |-> FtPolicy,
-                       expiry |-> "never", user |-> "execute-side"]
+                       expiry |-> "never", lease |-> 0, user |-> "execute-side"]
   /\ phase' = "ftimported"
   /\ UNCHANGED <<cfg, rel, claim, public, eA, eB, results>>
 
@@ -244,14 +254,26 @@ Outcome(which, cl, sv) ==
    works |-> cl.sid # << >> /\ sv.sid = cl.sid /\ sv.key = cl.key,
    peer  |-> sv.user]
 
+\* SessionEntry.RenewLease, called by both ends of every resumed connection
+Renew(e) ==
+  IF e.sid = << >> \/ e.lease = 0 THEN e ELSE [e EXCEPT !.expiry = ToString(Later + e.lease)]
+
 Connect(which) ==
   /\ \/ (which = "claim" /\ phase = "ftimported" /\ phase' = "claimconn")
      \/ (which = "filetrans" /\ phase = "claimconn" /\ phase' = "done")
   /\ LET a == IF which = "claim" THEN eA ELSE fA
          b == IF which = "claim" THEN eB ELSE fB
-     IN results' = Append(results, IF cfg.dir = "importerDials" THEN Outcome(which, b, a)
-                                   ELSE Outcome(which, a, b))
-  /\ UNCHANGED <<cfg, rel, claim, public, eA, eB, fA, fB>>
+         o == IF cfg.dir = "importerDials" THEN Outcome(which, b, a) ELSE Outcome(which, a, b)
+     IN /\ results' = Append(results, o)
+        \* both ends touch their entry once the listening end has found the id
+        /\ IF which = "claim"
+           THEN /\ eA' = (IF o.found THEN Renew(eA) ELSE eA)
+                /\ eB' = (IF o.found THEN Renew(eB) ELSE eB)
+                /\ UNCHANGED <<fA, fB>>
+           ELSE /\ fA' = (IF o.found THEN Renew(fA) ELSE fA)
+                /\ fB' = (IF o.found THEN Renew(fB) ELSE fB)
+                /\ UNCHANGED <<eA, eB>>
+  /\ UNCHANGED <<cfg, rel, claim, public>>
 
 Next == Mint \/ Import \/ ImportFT \/ Connect("claim") \/ Connect("filetrans")
 
@@ -266,13 +288,18 @@ After(ph) ==
                   [] x = "ftimported" -> 3 [] x = "claimconn" -> 4 [] OTHER -> 5]
   IN ord[phase] >= ord[ph]
 
-\* same id, key, policy and expiry on both ends, and they are what was asked for
+\* same id, key, policy, expiry and lease on both ends, and they are what was
+\* asked for - in EVERY state from the import on, i.e. also after the session
+\* has been used by a connection in either direction
 SameSession ==
   (After("imported") /\ rel = "same") =>
-     /\ eB.sid = eA.sid /\ eB.key = eA.key /\ eB.policy = eA.policy /\ eB.expiry = eA.expiry
+     /\ eB.sid = eA.sid /\ eB.key = eA.key /\ eB.policy = eA.policy
+     /\ eB.expiry = eA.expiry /\ eB.lease = eA.lease
      /\ eA.policy = Policy(cfg, Now)
      /\ eA.expiry = (IF cfg.life = 0 THEN "never" ELSE ToString(Now + cfg.life))
-     /\ (After("ftimported") => (fB.sid = fA.sid /\ fB.key = fA.key /\ fB.policy = fA.policy))
+     /\ (After("ftimported") =>
+           (fB.sid = fA.sid /\ fB.key = fA.key /\ fB.policy = fA.policy
+            /\ fB.expiry = fA.expiry /\ fB.lease = fA.lease))
 
 ResumesBothWays ==
   rel = "same" => \A k \in DOMAIN results : results[k].found /\ results[k].works
